@@ -362,3 +362,7 @@ def model_env(model, names, rng=None):
 
 def exc_sig(e):
     return "%s: %s" % (type(e).__name__, str(e).splitlines()[0][:160] if str(e) else "")
+
+
+def onp_module():
+    return onp
